@@ -807,9 +807,56 @@ func init() {
 		}
 		// next to "$defs", a stale legacy "definitions" block with the same names must not change anything
 		pcs = append(pcs, staleDefinitionVariants(pcs, c.N(80, 800))...)
+		// three (or four) definitions that ask for one Go type name and differ only in a default: every use decodes an
+		// empty object to ITS definition's default, whichever of the earlier declarations its schema equals
+		names := []string{"o p", "o-p", "o_p", "o.p"}
+		for _, seq := range [][]int{{3, 5, 5}, {3, 5, 3}, {3, 3, 5}, {5, 3, 3}, {3, 5, 7}, {3, 5, 5, 3}, {3, 5, 7, 5}, {3, 5, 7, 7}, {1, 1, 2, 2}} {
+			props, defs := M{}, M{}
+			var docs []any
+			for i, d := range seq {
+				defs[names[i]] = M{"type": "object", "properties": M{"retries": M{"type": "integer", "default": d}, "label": M{"type": "string"}}}
+				props[fmt.Sprintf("p%d", i)] = M{"$ref": "#/$defs/" + names[i]}
+				docs = append(docs, M{fmt.Sprintf("p%d", i): M{}})
+			}
+			pcs = append(pcs, baseCase("c09-colliding-defaults", M{"type": "object", "properties": props, "$defs": defs}, docs, fmt.Sprint(seq)))
+		}
 		res := runCases(c, pcs)
 		res = append(res, tres...)
 		for _, r := range res {
+			if r.Case.Stream == "c09-colliding-defaults" {
+				if r.RunsJ == nil {
+					fails++
+					c.Fail("oracle", "colliding definitions with defaults: the program does not generate/compile: "+r.Real.ErrMsg+r.CompileErr, replayOf(r, -1, nil), false)
+					continue
+				}
+				for i, rr := range r.RunsJ {
+					key := fmt.Sprintf("p%d", i)
+					want := r.Case.Schema.(M)["$defs"].(M)[names[i]].(M)["properties"].(M)["retries"].(M)["default"]
+					c.Eval("colliding-defaults|" + r.Case.Labels[0] + "|" + key + "|" + rr.Kind)
+					if rr.Kind != "ok" {
+						fails++
+						if fails <= 3 {
+							c.Fail("oracle", "colliding definitions with defaults: an empty object is rejected: "+clip(rr.Msg, 200), replayOf(r, i, nil), false)
+						}
+						continue
+					}
+					out, err := core.ParseCanon(rr.Canon)
+					if err != nil {
+						continue
+					}
+					got := any(nil)
+					if m, ok := out.(map[string]any)[key].(map[string]any); ok {
+						got = m["retries"]
+					}
+					if core.Canon(got) != core.Canon(core.CanonValue(want)) {
+						fails++
+						if fails <= 3 {
+							c.Fail("oracle", fmt.Sprintf("definitions %v competing for one type name: %s decodes {} to retries=%s, its definition's default is %v", r.Case.Labels[0], key, core.Canon(got), want), replayOf(r, i, nil), false)
+						}
+					}
+				}
+				continue
+			}
 			if r.Case.Stream != "c09-defaults" {
 				continue
 			}
